@@ -1,2 +1,3 @@
 pub mod engine;
 pub mod r1;
+pub mod r2;
